@@ -19,6 +19,8 @@ import FordModel.AttachIface
 import FordModel.Lemmas.AttachIface
 import FordModel.Lemmas.ReaderQuote
 import FordModel.IncludeMarks
+import FordModel.Summary
+import FordModel.Lemmas.Summary
 import FordModel.Lemmas.IncludeMarks
 namespace Ford.C03
 open Ford
@@ -848,5 +850,96 @@ example :
       = [("<file>".toList, []), ("mm".toList, []), ("a".toList, [" da".toList]), ("b".toList, [" db".toList]),
          ("c".toList, [" dc1".toList, " dc2".toList, []]), ("d".toList, [" dd1".toList, " dd2".toList])] := by
   decide
+
+/-! ## From the doc lines to what is shown: `FortranBase.markdown` (dedent, conversion, summary) -/
+
+/-- `textwrap.dedent`, which `FortranBase.markdown` applies to the joined doc lines before the
+    conversion, keeps every word exactly once and in order - for every comment, whatever its
+    indentation (common margin of blanks and tabs, white-space-only lines, empty lines). -/
+theorem dedent_keeps_every_word (ls : List Str) : W (dedent ls) = W ls := dedent_words ls
+
+/-- What `PARA_CAPTURE_RE.search` returns is a piece of the entity's own rendered documentation:
+    `doc = pre ++ para ++ post`, `para` is `<p>` … `</p>` (any letter case), it starts at the first
+    `<p>` of the documentation and ends at the first `</p>` behind it - never reaching into a later
+    paragraph, never text from anywhere else. -/
+theorem summary_paragraph_is_first_paragraph_of_own_doc (doc pre para post : Str)
+    (h : paraCapture doc = some (pre, para, post)) :
+    doc = pre ++ para ++ post ∧
+    ∃ o body c, para = o ++ body ++ c ∧ lower o = pOpen ∧ lower c = pClose ∧
+      (∀ k, k < pre.length → startsWithCI (doc.drop k) pOpen = false) ∧
+      (∀ k, k < body.length → startsWithCI ((body ++ c ++ post).drop k) pClose = false) :=
+  paraCapture_spec doc pre para post h
+
+/-- Without a `summary:` metadata the summary (before the link) is a contiguous part of the entity's
+    own rendered documentation, for every documentation and with or without URL: no word of it comes
+    from anywhere else, none is duplicated or reordered. -/
+theorem summary_is_part_of_own_doc (doc : Str) (url : Option Str) :
+    summaryCore doc none url <:+: doc := by
+  unfold summaryCore summaryCoreV
+  cases h : paraCapture doc with
+  | none => exact ⟨[], doc, by simp⟩
+  | some r =>
+    obtain ⟨pre, para, post⟩ := r
+    have hd := (paraCapture_spec doc pre para post h).1
+    cases url with
+    | none => exact ⟨[], [], by simp⟩
+    | some u => exact ⟨pre, post, by simp [hd]⟩
+
+/-- An entity that has no place of its own in the output (`get_url()` is `None`, e.g. a derived type
+    local to a procedure) shows its whole documentation as summary, unchanged and without a link -
+    provided the documentation has a paragraph (see the `_witness` below). -/
+theorem summary_without_url_is_whole_doc_partial (doc : Str) (h : paraCapture doc ≠ none) :
+    summaryOf doc none none = doc := by
+  unfold summaryOf summaryOfV summaryCoreV
+  cases h' : paraCapture doc with
+  | none => exact absurd h' h
+  | some r => obtain ⟨pre, para, post⟩ := r; rfl
+
+/-- With fixes/C03-summary-without-paragraph.diff the same holds for every documentation. -/
+theorem summary_without_url_is_whole_doc_when_fixed (doc : Str) : summaryOfV true doc none none = doc := by
+  unfold summaryOfV summaryCoreV
+  cases h' : paraCapture doc with
+  | none => rfl
+  | some r => obtain ⟨pre, para, post⟩ := r; rfl
+
+/-- As the code is: documentation without any paragraph (only a list, only a code block) of an
+    entity without URL gives the empty summary - nothing of the comment is in it. -/
+theorem summary_without_url_and_paragraph_witness :
+    summaryOf "<ul>\n<li>t1q0 t1q1</li>\n</ul>".toList none none = [] := by decide
+
+/-- A shortened summary always carries the link to the place where the complete documentation is,
+    and a complete one never does: for every documentation, URL and `summary:` value the summary is
+    the core followed by the "Read more" link (text probed from the code, `Gen.readMorePre/Suf`)
+    exactly when the core differs from the whole documentation (blanks at the ends ignored). -/
+theorem shortened_summary_links_to_full_documentation (doc u : Str) (ms : Option Str) :
+    summaryOf doc ms (some u) =
+      summaryCore doc ms (some u) ++
+        (if strip (summaryCore doc ms (some u)) = strip doc then [] else Gen.readMorePre ++ u ++ Gen.readMoreSuf) := by
+  unfold summaryOf summaryOfV
+  by_cases h : strip (summaryCore doc ms (some u)) = strip doc
+  · simp [summaryCore] at h; simp [h, summaryCore]
+  · simp [summaryCore] at h; simp [h, readMore, summaryCore]
+
+/-- A documentation that is one paragraph is its own summary: complete, and without link - whether
+    the entity has a URL or not. -/
+theorem single_paragraph_doc_is_its_own_summary (body : Str) (hb : '<' ∉ body) (url : Option Str) :
+    summaryOf (pOpen ++ body ++ pClose) none url = pOpen ++ body ++ pClose := by
+  unfold summaryOf summaryOfV summaryCoreV
+  rw [paraCapture_single body hb]
+  cases url <;> simp
+
+/-- The `summary:` metadata of the comment, when set, is what is shown (converted), whatever the
+    body says; the paragraph rule does not apply. -/
+theorem summary_metadata_is_shown (doc s : Str) (url : Option Str) : summaryCore doc (some s) url = s := rfl
+
+/-- non-vacuity / worked instances on the probed link text: a two-paragraph documentation with URL is
+    cut after the first paragraph (upper-case tags, a line break inside the paragraph) and linked;
+    without URL it is shown whole; an unclosed first `<p>` gives no paragraph at all -/
+example :
+    summaryOf "<ul><li>x</li></ul>\n<P>t1q0\nt1q1</P>\n<p>t1q2</p>".toList none (some "proc/s.html".toList)
+      = "<P>t1q0\nt1q1</P><a href=\"../proc/s.html\" class=\"pull-right\"><emph>Read more&hellip;</emph></a>".toList ∧
+    summaryOf "<p>t1q0</p>\n<p>t1q2</p>".toList none none = "<p>t1q0</p>\n<p>t1q2</p>".toList ∧
+    paraCapture "<p>t1q0 <p>t1q1".toList = none ∧
+    paraCapture "<p>a</p>".toList ≠ none := by decide
 
 end Ford.C03
